@@ -14,7 +14,15 @@ static char outcome[MAXC][32];
 static char filters[4096];
 static DBusTimeout *timeouts[256]; static int n_timeouts;
 
-static dbus_bool_t add_to (DBusTimeout *t, void *d) { (void) d; if (n_timeouts < 256) timeouts[n_timeouts++] = t; return TRUE; }
+static int refuse_next_timeout;      /* the application's add-timeout function says no once: the send in progress fails */
+static DBusMessage *retry_msg;       /* the message of a send that failed, kept for the application's second attempt */
+static dbus_bool_t add_to (DBusTimeout *t, void *d)
+{
+  (void) d;
+  if (refuse_next_timeout) { refuse_next_timeout = 0; return FALSE; }
+  if (n_timeouts < 256) timeouts[n_timeouts++] = t;
+  return TRUE;
+}
 static void rem_to (DBusTimeout *t, void *d) { int i; (void) d; for (i = 0; i < n_timeouts; i++) if (timeouts[i] == t) { timeouts[i] = timeouts[--n_timeouts]; return; } }
 static void tog_to (DBusTimeout *t, void *d) { (void) t; (void) d; }
 
@@ -62,7 +70,8 @@ static void reset (void)
       if (srvmsg[i]) { dbus_message_unref (srvmsg[i]); srvmsg[i] = NULL; }
       notified[i] = 0; outcome[i][0] = 0;
     }
-  ncalls = 0; filters[0] = 0; n_timeouts = 0;
+  ncalls = 0; filters[0] = 0; n_timeouts = 0; refuse_next_timeout = 0;
+  if (retry_msg) { dbus_message_unref (retry_msg); retry_msg = NULL; }
   if (cli) { dbus_connection_close (cli); dbus_connection_unref (cli); cli = NULL; }
   if (srv) { if (dbus_connection_get_is_connected (srv)) dbus_connection_close (srv); dbus_connection_unref (srv); srv = NULL; pair_server_conn = NULL; }
   pair_n_watch = 0;
@@ -92,6 +101,47 @@ main (void)
               sscanf (line, "pc sendser %lu %ld %ld", &ser, &f2, &n2);
               dbus_message_set_serial (m, (dbus_uint32_t) ser); a = f2; b = n2;
             }
+          i = ncalls;
+          if (!dbus_connection_send_with_reply (cli, m, &p, a ? 100000 + i : DBUS_TIMEOUT_INFINITE)) return 2;
+          if (!p) printf ("no-pending\n");
+          else
+            {
+              int k;
+              ncalls++;
+              pcs[i] = p; serials[i] = dbus_message_get_serial (m);
+              if (b) dbus_pending_call_set_notify (p, notify_cb, (void *) (long) i, NULL);
+              dbus_connection_flush (cli);
+              for (k = 0; k < 1000 && !srvmsg[i]; k++)
+                {
+                  dbus_connection_read_write (srv, 1);
+                  srvmsg[i] = dbus_connection_pop_message (srv);
+                }
+              printf ("serial=%u\n", serials[i]);
+            }
+          dbus_message_unref (m);
+        }
+      else if (!strcmp (cmd, "failsend"))
+        {
+          /* dbus_connection_send_with_reply fails after the message was given its serial */
+          DBusMessage *m = dbus_message_new_method_call (NULL, "/p", "v.I", "M");
+          DBusPendingCall *p = NULL;
+          if (!dbus_connection_get_is_connected (cli)) { printf ("no-pending\n"); dbus_message_unref (m); fflush (stdout); continue; }
+          refuse_next_timeout = 1;
+          if (dbus_connection_send_with_reply (cli, m, &p, 100000 + 63))
+            { printf ("did-not-fail\n"); if (p) { dbus_pending_call_cancel (p); dbus_pending_call_unref (p); } dbus_message_unref (m); }
+          else
+            {
+              if (retry_msg) dbus_message_unref (retry_msg);
+              retry_msg = m;
+              printf ("failed serial=%u\n", dbus_message_get_serial (m));
+            }
+          refuse_next_timeout = 0;
+        }
+      else if (!strcmp (cmd, "retry") && n == 3)
+        {
+          DBusPendingCall *p = NULL; DBusMessage *m = retry_msg;
+          if (!m) { printf ("bad-op\n"); fflush (stdout); continue; }
+          retry_msg = NULL;
           i = ncalls;
           if (!dbus_connection_send_with_reply (cli, m, &p, a ? 100000 + i : DBUS_TIMEOUT_INFINITE)) return 2;
           if (!p) printf ("no-pending\n");
